@@ -17,6 +17,11 @@ static int n;                       /* queue length */
 static int posted[VP_K];            /* semaphore of record i was posted */
 static int cleared_before_post[VP_K];
 
+/* the record of the thread under proof when it registers on the cv through nsync_cv_waitable_funcs (as nsync_wait_n does) */
+static struct nsync_waiter_s mine;
+static nsync_semaphore mine_sem;
+static int mine_posted;
+
 /* the semaphore post: records the record it belongs to (overrides the generic stub: VP_REAL_SEM is defined for this group) */
 void nsync_mu_semaphore_init (nsync_semaphore *s) { (void) s; }
 void nsync_mu_semaphore_p (nsync_semaphore *s) { (void) s; vp_g.p_calls++; }
@@ -28,8 +33,23 @@ void nsync_mu_semaphore_v (nsync_semaphore *s) {
 			found = 1;
 			__CPROVER_assert (W[i].nw.waiting == 0, "C04: a waiter's semaphore is posted only after its waiting flag was cleared");
 			__CPROVER_assert (!posted[i], "C04: each waiter is posted at most once per wake-up");
+			/* A record registered through nsync_wait_n (no NSYNC_WAITER_FLAG_MUCV) has no remove_count: its owner's dequeue decides
+			   'still queued' from the waiting flag, under the cv spinlock, and frees the record when nsync_wait_n returns.  So the waker
+			   must clear the flag and post - its last accesses to the record - inside the spinlock section that unlinked it. */
+			__CPROVER_assert ((W[i].nw.flags & NSYNC_WAITER_FLAG_MUCV) != 0 || vp_cvg.spin,
+					  "C04/C13: the waker is done with an nsync_wait_n record (flag cleared, semaphore posted) before it releases the cv spinlock "
+					  "that the record's dequeue takes: otherwise a wait ending through its deadline or another object sees itself still queued "
+					  "(the wake-up is swallowed) and the waker then writes into the returned call's bookkeeping");
 			posted[i] = 1;
 		}
+	}
+	if (s == &mine_sem) {
+		found = 1;
+		__CPROVER_assert (mine.waiting == 0, "C04: a waiter's semaphore is posted only after its waiting flag was cleared");
+		__CPROVER_assert (!mine_posted, "C04: each waiter is posted at most once per wake-up");
+		__CPROVER_assert (vp_cvg.spin, "C04/C13: the waker is done with an nsync_wait_n record (flag cleared, semaphore posted) before it releases the cv spinlock "
+				  "that the record's dequeue takes");
+		mine_posted = 1;
 	}
 	__CPROVER_assert (found, "C04: only semaphores of waiters taken from the queue are posted");
 	vp_g.v_calls++;
@@ -135,3 +155,34 @@ static void one_signal (void) {
 	__CPROVER_assert (the_cv.waiters == NULL || (the_cv.word & CV_NON_EMPTY) != 0, "C04: CV_NON_EMPTY stays set while waiters remain (later wake-ups must not take the empty fast path)");
 }
 void h_cv_signal (void) { VP_FOR_ALL_KINDS (one_signal ()); VP_CANARY (); }
+
+/* The waitable interface of a cv (what nsync_wait_n calls), on the real queue: register behind n other waiters, let another thread
+   run a complete nsync_cv_signal / nsync_cv_broadcast (or nothing), poll, dequeue. */
+static int act_of;
+static void one_waitable (void) {
+	int r, taken, ready;
+	build ((mu_word_of & MU_WLOCK) != 0 ? (vp_nondet_bool () ? VP_WRITER : VP_NONE) : (mu_word_of & MU_RLOCK_FIELD) != 0 ? (vp_nondet_bool () ? VP_READER : VP_NONE) : VP_NONE);
+	mine.tag = NSYNC_WAITER_TAG; mine.sem = &mine_sem; mine.flags = 0; mine.waiting = 0;
+	nsync_dll_init_ (&mine.q, &mine);
+	/* (not registered as a foreign record: this thread clears its own flag in cv_dequeue, with a plain store) */
+	mine_posted = 0;
+	r = cv_enqueue (&the_cv, &mine);
+	__CPROVER_assert (r == 1 && mine.waiting == 1 && nsync_dll_last_ (the_cv.waiters) == &mine.q && (the_cv.word & CV_NON_EMPTY) != 0 && !vp_cvg.spin,
+			  "C11: registration on a cv puts the record at the tail of its queue and marks the cv non-empty");
+	__CPROVER_assert (nsync_time_cmp (cv_ready_time (&the_cv, &mine), nsync_time_no_deadline) == 0, "C11: a registered record that no waker has taken is not ready");
+	if (act_of == 1) nsync_cv_signal (&the_cv);
+	else if (act_of == 2) nsync_cv_broadcast (&the_cv);
+	taken = !on_list (the_cv.waiters, &mine.q);
+	__CPROVER_assert (taken == (mine.waiting == 0) && taken == mine_posted,
+			  "C04: a record a waker took from the queue has its flag cleared and its semaphore posted; a record not taken is untouched");
+	ready = nsync_time_cmp (cv_ready_time (&the_cv, &mine), nsync_time_zero) == 0;
+	__CPROVER_assert (ready == taken, "C11: the cv reports ready for this call exactly when a waker has taken its record");
+	r = cv_dequeue (&the_cv, &mine);
+	__CPROVER_assert (r == !taken, "C04/C11: dequeue reports 'still queued' exactly when no waker has taken the record: a consumed wake-up is never reported as a timeout");
+	__CPROVER_assert (!on_list (the_cv.waiters, &mine.q) && mine.waiting == 0 && mine.q.next == &mine.q && mine.q.prev == &mine.q,
+			  "C11: on return the record is registered nowhere");
+	__CPROVER_assert ((the_cv.waiters == NULL || (the_cv.word & CV_NON_EMPTY) != 0) && !vp_cvg.spin,
+			  "C04: CV_NON_EMPTY stays set while waiters remain, and the spinlock is released");
+	__CPROVER_assert (mine_posted == taken, "C04: dequeue posts nobody");
+}
+void h_cv_waitable (void) { for (act_of = 0; act_of < 3; act_of++) { VP_FOR_ALL_KINDS (one_waitable ()); } VP_CANARY (); }
